@@ -24,6 +24,11 @@ R13d escape audit of the unprotected part of Engine.tick: for every call in tick
      A new pair is a violation: an exception out of Engine.tick silently stops the tick timer thread.
 R13e responsiveness: Stop is not refused in the Paused state by _validate_control_command, and the merge
      branch of Engine._set_method clears the error state after a successful merge.
+R13f the engine's own bookkeeping reads real values: in the tick-phase functions of Engine (update_calculated_tags,
+     notify_tag_updates, _validate_control_command, tick itself) and in the control commands' _run, a system tag is read through
+     `.value`, never through get_value()/as_float()/as_number(): those return the *simulated* value, and `Simulate: <tag> = <any
+     text>` is legal P-code for every tag - a non-numeric Run Time made every tick raise outside the try, a simulated Connection
+     Status tripped an assert every tick, a simulated System State made Stop invalid for the rest of the run.
 Decides the error discipline; does not decide exceptions raised inside user UOD callbacks or by partial
 builtins on runtime values (those need value reasoning), nor RecursionError from deep programs.
 """
@@ -44,8 +49,8 @@ CM = "openpectus.engine.command_manager:CommandManager"
 # (exception type, raising function) -> reason it cannot fire from the unprotected part of Engine.tick
 JUSTIFIED = {
     ("AssertionError", "Engine.notify_tag_updates"):
-        "Connection Status is only written by ErrorRecoveryDecorator._update_connection_status with str(enum) of the "
-        "two-member ConnectionStatusEnum",
+        "the *real* value (`.value`, R13f) of Connection Status is only written by ErrorRecoveryDecorator."
+        "_update_connection_status with str(enum) of the two-member ConnectionStatusEnum",
     ("AssertionError", "MarkTag.set_value"):
         "class-hierarchy over-approximation of Tag.set_value: the system tags written in tick/set_error_state/"
         "update_calculated_tags are plain Tag objects (Mark is written by the interpreter only, inside the try)",
@@ -57,9 +62,6 @@ JUSTIFIED = {
         "hardware values in their declared domain (property assumption)",
     ("NotImplementedError", "DerivedTag.clear_changes"):
         "class-hierarchy over-approximation: Engine._system_listener/_uod_listener are constructed as ChangeListener",
-    ("ValueError", "Tag.as_float"):
-        "Process Time / Run Time are only written with floats (Start/Restart zero them with 0.0, update_calculated_tags "
-        "adds increment_time) - writers checked by C07",
     ("ValueError", "TagCollection.get"):
         "keys are SystemTagName constants registered by create_system_tags, or register names validated against the "
         "tag collection when the UOD is built (configuration level)",
@@ -412,6 +414,34 @@ def run(ctx) -> None:
     if n_calls < 8:
         raise AnchorError(f"only {n_calls} unprotected calls found in Engine.tick (floor 8)")
 
+    # ---------------------------------------------------------------- R13f
+    ctx.rule("R13f", "engine bookkeeping reads the real value of system tags, not the simulation mask")
+    from ..util import local_single_defs as _lsd13
+    eng_cls = prog.cls(ENGINE)
+    impl_mod = prog.module("openpectus.engine.internal_commands_impl")
+    scope = [eng_cls.methods[m_] for m_ in ("tick", "update_calculated_tags", "notify_tag_updates", "_validate_control_command") if m_ in eng_cls.methods]
+    scope += [c_.methods["_run"] for c_ in impl_mod.classes.values() if "_run" in c_.methods]
+    n_reads = 0
+    for fn in scope:
+        d_ = _lsd13(fn)
+        for c in walk_no_nested(fn.node):
+            if not (isinstance(c, ast.Call) and isinstance(c.func, ast.Attribute) and c.func.attr in ("get_value", "as_float", "as_number", "as_str")):
+                continue
+            recv = c.func.value
+            recv = d_.get(recv.id, recv) if isinstance(recv, ast.Name) else recv
+            if "_system_tags" not in norm(recv):
+                continue
+            n_reads += 1
+            ctx.analysed(fn)
+            ctx.fail("R13f", fn, c, f"{fn.short}: `{norm(c)[:60]}` reads a system tag's real value", "this returns the simulated value while the tag is "
+                     "simulated; a method may simulate any tag with any text, so the engine's arithmetic / state tests / asserts on it can "
+                     "raise in every tick outside the try, or refuse Stop for the rest of the run")
+    vals = sum(1 for fn in scope for a in walk_no_nested(fn.node) if isinstance(a, ast.Attribute) and a.attr == "value" and isinstance(a.ctx, ast.Load)
+               and "_system_tags" in norm(_lsd13(fn).get(a.value.id, a.value) if isinstance(a.value, ast.Name) else a.value))
+    if n_reads == 0:
+        if vals < 3:
+            raise AnchorError(f"R13f: only {vals} real-value reads of system tags found in the engine's bookkeeping (floor 3)")
+        ctx.ok("R13f", f"{vals} reads of system tags in the engine's bookkeeping use `.value`", {"rule": "R13f", "functions": [f_.short for f_ in scope]})
     # ---------------------------------------------------------------- R13e
     vcc = prog.func(f"{ENGINE}._validate_control_command")
     ctx.analysed(vcc)
